@@ -816,7 +816,7 @@ func (h *packetHandlerMap) Remove(id protocol.ConnectionID) {
 func (h *packetHandlerMap) ReplaceWithClosed(ids []protocol.ConnectionID, connClosePacket []byte, expiry time.Duration) {
 	var handler packetHandler
 	if connClosePacket != nil {
-		handler = newClosedLocalConn(
+		handler = newClosedLocalConnWithPacketSize(
 			func(addr net.Addr, info packetInfo) {
 				select {
 				case h.closeQueue <- closePacket{payload: connClosePacket, addr: addr, info: info}:
@@ -825,6 +825,7 @@ func (h *packetHandlerMap) ReplaceWithClosed(ids []protocol.ConnectionID, connCl
 					// Just drop the packet, sending CONNECTION_CLOSE copies is best effort anyway.
 				}
 			},
+			protocol.ByteCount(len(connClosePacket)),
 			h.logger,
 		)
 	} else {
